@@ -76,7 +76,7 @@ CHECKS = {
     "C19": dict(
         level="model_checking",
         technique="TLA+ reader contract over an abstract token alphabet; TLC enumerates every token document of bounded length, each is rendered and read in a watchdog child process and judged by a TLC monitor; plus every single-point corruption of well-formed documents",
-        text="All documents of up to 2/3 content units over 118 units x header variants (missing / duplicated / undecodable attributes, non-numeric weights, stray data, unknown elements, mismatched end tags, end of input inside a tag / an open edge / weight or other data / a comment / CDATA) must yield Ok or Err, with Err where an element cannot be represented and, for Ok, exactly the node and edge elements under the C01 rules with the declared directedness; every deletion / duplication / truncation / bit flip of generated documents must yield Ok or Err.",
+        text="All documents of up to 2/3 content units over 123 units x header variants (missing / duplicated / undecodable attributes, non-numeric weights, stray data, unknown elements, mismatched end tags, end of input inside a tag / an open edge / weight or other data / a comment / CDATA) must yield Ok or Err, with Err where an element cannot be represented and, for Ok, exactly the node and edge elements under the C01 rules with the declared directedness; every deletion / duplication / truncation / bit flip of generated documents must yield Ok or Err.",
         note="Bounded document length; renderer from tokens to text is trusted; panics are observed through catch_unwind, aborts and hangs through the child-process watchdog.",
         design="4/C19"),
     "C11": dict(
